@@ -10,6 +10,7 @@ from vq.harness import lift as L
 
 W.install_int_stub()
 TS = datetime(2020, 1, 1)
+TS_COMMON = datetime(2021, 7, 9, 13, 5)      # a reference time in a non-leap year
 QP = [PODS.index(x) for x in ("morning", "afternoon", "night", "last", "noon", "veryearlymorning") if x in PODS]
 MONTH_GROUPS = ["january", "february", "march", "april", "may", "june", "july", "august", "september",
                 "october", "november", "december"]
@@ -138,24 +139,24 @@ def lift_ddmmyyyy(d, m, named, y):
     return L.contract("ruleDDMMYYYY", [("rm", 126)], [W.StubMatch(g)], TS, exp)
 
 
-def ob_ddmm(d: int, m: int, named: bool, mmdd: bool) -> bool:
+def ob_ddmm(d: int, m: int, named: bool, mmdd: bool, common: bool) -> bool:
     """
     pre: 1 <= d <= 31 and 1 <= m <= 12
     post: _
     """
     g = {"day": W.Num(d)}
     g.update(_month_groups(m, named))
-    r = w("ruleMMDD" if mmdd else "ruleDDMM")(TS, W.StubMatch(g))
+    r = w("ruleMMDD" if mmdd else "ruleDDMM")(TS_COMMON if common else TS, W.StubMatch(g))
     if d <= mdays(None, m):
         return r is not None and key_time(r) == (None, m, d, None, None, None, None)
     return r is None
 
 
-def lift_ddmm(d, m, named, mmdd):
+def lift_ddmm(d, m, named, mmdd, common):
     g = {"day": W.Num(d)}
     g.update(_month_groups(m, named))
     exp = ("T", None, m, d, None, None, None, None) if d <= mdays(None, m) else None
-    return L.contract("ruleMMDD" if mmdd else "ruleDDMM", [("rm", 125 if mmdd else 124)], [W.StubMatch(g)], TS, exp)
+    return L.contract("ruleMMDD" if mmdd else "ruleDDMM", [("rm", 125 if mmdd else 124)], [W.StubMatch(g)], TS_COMMON if common else TS, exp)
 
 
 def ob_simple(v: int, which: int) -> bool:
@@ -197,25 +198,27 @@ def lift_year(ref, y):
     return L.contract("ruleYear", [("rm", 111)], [W.StubMatch({"year": W.Num(y)})], datetime(ref, 6, 15, 12, 0), ("T", e, None, None, None, None, None, None))
 
 
-def ob_dommonth(d: int, m: int, which: int) -> bool:
+def ob_dommonth(d: int, m: int, which: int, common: bool) -> bool:
     """
     pre: 1 <= d <= 31 and 1 <= m <= 12 and 0 <= which <= 2
     post: _
     """
     dom, mon = Time(day=d), Time(month=m)
+    ts = TS_COMMON if common else TS
     if which == 0:
-        r = w("ruleDOMMonth")(TS, dom, mon)
+        r = w("ruleDOMMonth")(ts, dom, mon)
     elif which == 1:
-        r = w("ruleDOMMonth2")(TS, dom, W.StubMatch({}, 4, 6), mon)
+        r = w("ruleDOMMonth2")(ts, dom, W.StubMatch({}, 4, 6), mon)
     else:
-        r = w("ruleMonthDOM")(TS, mon, dom)
+        r = w("ruleMonthDOM")(ts, mon, dom)
     if d <= mdays(None, m):
         return r is not None and key_time(r) == (None, m, d, None, None, None, None)
     return r is None
 
 
-def lift_dommonth(d, m, which):
+def lift_dommonth(d, m, which, common):
     dom, mon = Time(day=d), Time(month=m)
+    TS = TS_COMMON if common else globals()["TS"]
     exp = ("T", None, m, d, None, None, None, None) if d <= mdays(None, m) else None
     if which == 0:
         return L.contract("ruleDOMMonth", A(2), [dom, mon], TS, exp)
